@@ -82,8 +82,11 @@ class OpenAPISchemaResolver(SchemaTypeResolver):
         # Handle named schemas without generation_name (fallback for references)
         if schema.name and schema.name in self.ref_resolver.schemas:
             target_schema = self.ref_resolver.schemas[schema.name]
-            # Avoid infinite recursion if it's the same object
-            if target_schema is not schema:
+            # Avoid infinite recursion if it's the same object. An inline schema of another kind is not a
+            # reference either: a string property that happens to be called like a model keeps its own type
+            target_type = getattr(target_schema, "type", None)
+            is_other_kind = schema_type in ("string", "integer", "number", "boolean") and target_type != schema_type
+            if target_schema is not schema and not is_other_kind:
                 return self.resolve_schema(target_schema, context, required, resolve_underlying)
 
         # Handle by type (schema_type was already extracted above for boolean enum check)
